@@ -22,7 +22,7 @@ TRUST = COMMON_TRUST + [
     "the interception point: the module attribute asphalt.core._cli.run_application is replaced by a recorder",
 ]
 
-KEYS = ["a", "b", "log", "x.y", "k_1"]
+KEYS = ["a", "b", "log", "x.y", "k_1", "a.b.c", "10.0.0.1", "w.", ".z"]
 SERVICE_NAMES = ["default", "web", "worker", "a.b"]
 
 
